@@ -227,6 +227,23 @@ func (e *Engine) enterLoopHeader(st *State, fr *Frame, h *ssa.BasicBlock, ord in
 	if len(invs) > 0 {
 		inv = invs[0]
 	}
+	// Contracts are keyed by loop ordinal. When the code's loop structure changed (a loop added in front of an
+	// annotated one), the invariant recorded for this ordinal names locals that do not exist at this loop. It is
+	// then not used at all: the loop is cut with the trivial invariant (everything it may write is arbitrary at
+	// its head, nothing is assumed, its hooks do not run and ghost state is arbitrary). That over-approximates the
+	// loop, so obligations that still discharge are proved and the ones that do not are reported.
+	trivial := false
+	if inv != nil && !st.spec {
+		for _, iv := range invs {
+			if why := e.unbindable(st, fr, iv); why != "" {
+				trivial = true
+				e.warn("loop%d of %s: %s -- the loop structure differs from the contract's; the loop is abstracted to arbitrary effects (no invariant assumed, hooks not run)", ord, fr.fn.Name(), why)
+			}
+		}
+		if trivial {
+			invs = nil
+		}
+	}
 	obligeInv := func(s *State, kind string) {
 		for _, iv := range invs {
 			name := fmt.Sprintf("%s:loop%d", kind, ord)
@@ -238,7 +255,7 @@ func (e *Engine) enterLoopHeader(st *State, fr *Frame, h *ssa.BasicBlock, ord in
 		}
 	}
 	back := fr.prev != nil && e.loopBody[h][fr.prev]
-	if inv == nil || st.spec {
+	if (inv == nil && !trivial) || st.spec {
 		fr.iter[h]++
 		if fr.iter[h] > e.bounded {
 			if !st.spec {
@@ -249,6 +266,9 @@ func (e *Engine) enterLoopHeader(st *State, fr *Frame, h *ssa.BasicBlock, ord in
 		return false
 	}
 	if back && fr.inLoop[h] {
+		if trivial {
+			return true
+		}
 		if hook := fr.fn.Pkg.Func(fmt.Sprintf("vc_hook_loopstep_%s_%d", contractStem(fr.fn), ord)); hook != nil {
 			feasibleBefore := e.inc.Sat(st.pc)
 			hs := e.execFunc(st, hook, e.bindByName(st, fr, hook), nil, fr.depth+1)
@@ -281,7 +301,7 @@ func (e *Engine) enterLoopHeader(st *State, fr *Frame, h *ssa.BasicBlock, ord in
 			}
 		}
 	}
-	if hook := fr.fn.Pkg.Func(fmt.Sprintf("vc_hook_loopentry_%s_%d", contractStem(fr.fn), ord)); hook != nil {
+	if hook := fr.fn.Pkg.Func(fmt.Sprintf("vc_hook_loopentry_%s_%d", contractStem(fr.fn), ord)); hook != nil && !trivial {
 		hs := e.execFunc(st, hook, e.bindByName(st, fr, hook), nil, fr.depth+1)
 		if len(hs) != 1 {
 			fail("loop-entry hook must be straight-line")
@@ -348,7 +368,7 @@ func (e *Engine) enterLoopHeader(st *State, fr *Frame, h *ssa.BasicBlock, ord in
 		}
 		st.heap[name] = cur
 	}
-	ghostW := e.loopMayWriteGhost(fr.fn, h, fx)
+	ghostW := e.loopMayWriteGhost(fr.fn, h, fx) || trivial
 	if os.Getenv("GOVC_DEBUGGHOST") != "" {
 		fmt.Printf("loop head b%d of %s: ghost havoc=%v (dyn=%v all=%v)\n", h.Index, fr.fn.Name(), ghostW, fx.dyn, fx.all)
 	}
@@ -409,10 +429,35 @@ func (e *Engine) enterLoopHeader(st *State, fr *Frame, h *ssa.BasicBlock, ord in
 			}
 		}
 	}
-	if !e.inc.Sat(st.pc) {
+	if !trivial && !e.inc.Sat(st.pc) {
 		fail("invariant %s is unsatisfiable after havoc (vacuous)", inv.Name())
 	}
 	return false
+}
+
+// unbindable reports why an invariant cannot be bound at this loop ("" when it can): it names a local or a loop
+// snapshot that does not exist here.
+func (e *Engine) unbindable(st *State, fr *Frame, iv *ssa.Function) (why string) {
+	for _, p := range iv.Params {
+		n := p.Name()
+		switch {
+		case strings.HasPrefix(n, "old_"):
+			if _, ok := fr.entry[strings.TrimPrefix(n, "old_")]; !ok {
+				return fmt.Sprintf("invariant %s names the parameter %s, which does not exist", iv.Name(), n)
+			}
+		case strings.HasPrefix(n, "pre_"):
+			if _, ok := fr.named[strings.TrimPrefix(n, "pre_")]; !ok {
+				if _, ok := fr.loopPre[n]; !ok {
+					return fmt.Sprintf("invariant %s names the snapshot %s of a local that does not exist", iv.Name(), n)
+				}
+			}
+		default:
+			if _, ok := e.lookupName(st, fr, n); !ok {
+				return fmt.Sprintf("invariant %s names the local %s, which does not exist at this loop", iv.Name(), n)
+			}
+		}
+	}
+	return ""
 }
 
 // ---------- vspec primitives ----------
